@@ -185,14 +185,6 @@ theorem same_period_unadjusted (facs : List (Nat × R)) (base : R) (b : Bar) (hb
   have : base / base = 1 := by field_simp
   rw [this, scaleBar_one]
 
-/-- hypothesis under which the early return of `adjust_bars` is sound: equal factors at both window ends imply
-the same factor on every bar of the window (true for monotone cumulative-factor tables; false for a split that is
-later exactly undone — finding F15) -/
-def EarlyReturnSound (facs : List (Nat × R)) (bars : List Bar) : Prop :=
-  ∀ first last, bars.head? = some first → bars.getLast? = some last →
-    factorForDate facs first.dt = factorForDate facs last.dt →
-    ∀ b ∈ bars, factorForDate facs b.dt = factorForDate facs first.dt
-
 theorem mapM_some_of_forall {α β : Type} (f : α → Option β) (g : α → β) :
     ∀ (l : List α), (∀ a ∈ l, f a = some (g a)) → l.mapM f = some (l.map g)
   | [], _ => by simp
@@ -201,42 +193,39 @@ theorem mapM_some_of_forall {α β : Type} (f : α → Option β) (g : α → β
     have h2 := mapM_some_of_forall f g as (fun x hx => h x (by simp [hx]))
     simp [List.mapM_cons, h1, h2]
 
-/-- **C20.2** `adjust_bars` (type 'pre') returns every bar scaled by `F(date)/F(now)`, volume by the inverse -/
+/-- **C20.2** `adjust_bars` (type 'pre') returns every bar scaled by `F(date)/F(now)`, volume by the inverse — for EVERY factor
+table (after the repair of finding F15 the statement needs no hypothesis about the table: the window comes back unchanged only when
+every bar carries the base factor, and then the specification is the identity too) -/
 theorem adjust_spec (bars : List Bar) (facs : List (Nat × R)) (orig : Nat) (base : R) (hb : base ≠ 0)
-    (hbase : factorForDate facs orig = some base) (hsound : EarlyReturnSound facs bars)
+    (hbase : factorForDate facs orig = some base)
     (hdef : ∀ b ∈ bars, ∃ f, factorForDate facs b.dt = some f) :
     adjustBars bars facs AdjustType.pre orig = bars.mapM (adjSpec facs base) := by
   cases hbars : bars with
   | nil => simp [adjustBars]
   | cons first rest =>
     rw [← hbars]
-    have hfirst_mem : first ∈ bars := by rw [hbars]; simp
-    obtain ⟨fs, hfs⟩ := hdef first hfirst_mem
-    have hlast_ex : ∃ last, bars.getLast? = some last := by
-      cases hgl : bars.getLast? with
-      | none => rw [List.getLast?_eq_none_iff] at hgl; rw [hgl] at hbars; cases hbars
-      | some x => exact ⟨x, rfl⟩
-    obtain ⟨last, hlast⟩ := hlast_ex
-    have hlast_mem : last ∈ bars := List.mem_of_getLast? hlast
-    obtain ⟨fe, hfe⟩ := hdef last hlast_mem
+    have hfl : bars.mapM (fun b => factorForDate facs b.dt) = some (bars.map (fun b => (factorForDate facs b.dt).getD 0)) := by
+      apply mapM_some_of_forall
+      intro b hbm
+      obtain ⟨f, hf⟩ := hdef b hbm
+      simp [hf]
     have hunf : adjustBars bars facs AdjustType.pre orig =
-        (if (fs == base && fe == base) then some bars
+        (if (bars.map (fun b => (factorForDate facs b.dt).getD 0)).all (fun f => f == base) then some bars
          else bars.mapM (fun b => (factorForDate facs b.dt).map (fun f => scaleBar b (f / base)))) := by
-      rw [hbars]; simp only [adjustBars]; rw [← hbars, hbase, hfs, hlast]
-      simp only [Option.bind_some, hfe]
+      rw [hbars]; simp only [adjustBars]; rw [← hbars, hbase, hfl]
     rw [hunf]
-    by_cases hc : (fs == base && fe == base) = true
+    by_cases hc : (bars.map (fun b => (factorForDate facs b.dt).getD 0)).all (fun f => f == base) = true
     · simp only [hc, if_true]
-      have hfsb : fs = base := by simp at hc; exact hc.1
-      have hfeb : fe = base := by simp at hc; exact hc.2
-      have hall := hsound first last (by rw [hbars]; simp) hlast (by rw [hfs, hfe, hfsb, hfeb])
       symm
       have : bars.mapM (adjSpec facs base) = some (bars.map id) := by
         apply mapM_some_of_forall
         intro b hbm
-        have := hall b hbm
-        rw [hfs, hfsb] at this
-        simpa using same_period_unadjusted facs base b hb this
+        obtain ⟨f, hf⟩ := hdef b hbm
+        have hall := List.all_eq_true.mp hc ((factorForDate facs b.dt).getD 0) (List.mem_map.mpr ⟨b, hbm, rfl⟩)
+        rw [hf] at hall
+        have hfb : f = base := by simpa using hall
+        rw [hfb] at hf
+        simpa using same_period_unadjusted facs base b hb hf
       simpa using this
     · simp only [hc]; rfl
 
@@ -246,21 +235,16 @@ theorem adjust_none_identity (bars : List Bar) (isCS : Bool) (facs : Option (Lis
     historyBars bars isCS false facs n dt false AdjustType.none orig = some (historyWindow bars dt n) := by
   unfold historyBars; simp [hne]
 
-/-- the excluded region is real (finding F15): cumulative factors 1 → 2 → 1 (a split later exactly undone); the
-window's ends carry the base factor, the middle bar does not, and `adjust_bars` returns the window unadjusted -/
+/-- the table that used to defeat the early return (finding F15, repaired): cumulative factors 1 → 2 → 1 (a split later exactly
+undone); the window's ends carry the base factor, the middle bar does not — the middle bar is now adjusted (close 5 · 2/1 = 10) -/
 def f15Bars : List Bar :=
   [⟨1, 10, 10, 10, 10, 100, 1000, 11, 9⟩, ⟨5, 5, 5, 5, 5, 200, 1000, 5.5, 4.5⟩, ⟨9, 10, 10, 10, 10, 100, 1000, 11, 9⟩]
 def f15Facs : List (Nat × R) := [(0, 1), (4, 2), (8, 1)]
 
-theorem early_return_unsound_witness :
-    ¬ EarlyReturnSound f15Facs f15Bars ∧
-    adjustBars f15Bars f15Facs AdjustType.pre 9 = some f15Bars ∧
-    (f15Bars.mapM (adjSpec f15Facs 1)).map (fun l => l.map (·.closeP)) = some [10, 10, 10] := by
-  refine ⟨?_, by decide +kernel, by decide +kernel⟩
-  intro h
-  have := h ⟨1, 10, 10, 10, 10, 100, 1000, 11, 9⟩ ⟨9, 10, 10, 10, 10, 100, 1000, 11, 9⟩ rfl rfl (by decide +kernel)
-    ⟨5, 5, 5, 5, 5, 200, 1000, 5.5, 4.5⟩ (by simp [f15Bars])
-  revert this; decide +kernel
+theorem f15_window_adjusted :
+    (adjustBars f15Bars f15Facs AdjustType.pre 9).map (fun l => l.map (·.closeP)) = some [10, 10, 10] ∧
+    adjustBars f15Bars f15Facs AdjustType.pre 9 = f15Bars.mapM (adjSpec f15Facs 1) := by
+  constructor <;> decide +kernel
 
 /-- non-vacuity of `adjust_spec`: one split (factor 1 → 2) inside the window -/
 example : adjustBars [⟨1, 10, 10, 10, 10, 100, 1000, 11, 9⟩, ⟨5, 5, 5, 5, 5, 200, 1000, 5.5, 4.5⟩] [(0, 1), (4, 2)] AdjustType.pre 5
